@@ -38,6 +38,18 @@ type Config struct {
 	MapRange   []string          `json:"maprange"` // package dirs (relative)
 	Seams      []Seam            `json:"seams"`
 	Exports    map[string]string `json:"exports"` // verif-relative source -> repo-relative dest
+	// Guards: lock-discipline assertions (instrumented files only): every
+	// statement that touches <recv>.<Field> must run with <recv>.<Lock> held.
+	// An anchor that no longer exists is skipped silently (no assertion, no
+	// verdict).
+	Guards []Guard `json:"guards"`
+}
+
+type Guard struct {
+	File  string `json:"file"`
+	Field string `json:"field"`
+	Lock  string `json:"lock"`
+	Name  string `json:"name"`
 }
 
 // Seam is a textual one-line replacement that must match exactly once.
@@ -226,6 +238,11 @@ func main() {
 				die("file %s is not part of its package under the current build constraints", rel)
 			}
 			rw := &rewriter{fset: fset, info: info, file: filepath.Base(rel), stats: stats}
+			for _, g := range cfg.Guards {
+				if g.File == rel {
+					rw.guards = append(rw.guards, g)
+				}
+			}
 			if j.osRw {
 				if !rewriteImport(f, "os", simfsPath, "os") {
 					// the file no longer imports os: nothing to shim, not an error
@@ -388,6 +405,7 @@ type rewriter struct {
 	usedSimrt bool
 	stats     map[string]int
 	tmp       int
+	guards    []Guard
 }
 
 func (r *rewriter) site(kind string) *ast.BasicLit {
@@ -524,6 +542,22 @@ func (r *rewriter) lockCall(s ast.Stmt) (recv ast.Expr, try string, ok bool) {
 	return nil, "", false
 }
 
+// guardUnlock rewrites `X.Unlock()` for a guard lock into
+// `simrt.UnlockG(X.Unlock, &X)` so that the runtime knows which locks a task
+// holds.
+func (r *rewriter) guardUnlock(e ast.Expr) *ast.CallExpr {
+	ce, ok := e.(*ast.CallExpr)
+	if !ok || len(ce.Args) != 0 {
+		return nil
+	}
+	sel, ok := ce.Fun.(*ast.SelectorExpr)
+	if !ok || (sel.Sel.Name != "Unlock" && sel.Sel.Name != "RUnlock") || !r.guardLock(sel.X) {
+		return nil
+	}
+	r.stats["guard_unlocks"]++
+	return r.call("UnlockG", &ast.SelectorExpr{X: sel.X, Sel: ast.NewIdent(sel.Sel.Name)}, &ast.UnaryExpr{Op: token.AND, X: sel.X})
+}
+
 func (r *rewriter) instrument(f *ast.File) {
 	for _, d := range f.Decls {
 		fd, ok := d.(*ast.FuncDecl)
@@ -548,9 +582,124 @@ func (r *rewriter) block(b *ast.BlockStmt) {
 func (r *rewriter) stmts(list []ast.Stmt) []ast.Stmt {
 	var out []ast.Stmt
 	for _, s := range list {
+		out = append(out, r.guardAsserts(s)...)
 		out = append(out, r.stmt(s)...)
 	}
 	return out
+}
+
+// guardLockName says whether e is `<x>.<lock>` for a configured guard.
+func (r *rewriter) guardLock(e ast.Expr) bool {
+	sel, ok := e.(*ast.SelectorExpr)
+	if !ok {
+		return false
+	}
+	for _, g := range r.guards {
+		if sel.Sel.Name == g.Lock {
+			return true
+		}
+	}
+	return false
+}
+
+// guardAsserts returns `simrt.AssertHeld(name, &recv.lock)` statements for the
+// guarded fields statement s touches in its own expressions (the bodies of
+// compound statements are handled when their statements are visited).
+func (r *rewriter) guardAsserts(s ast.Stmt) []ast.Stmt {
+	if len(r.guards) == 0 {
+		return nil
+	}
+	var roots []ast.Node
+	switch x := s.(type) {
+	case *ast.ExprStmt, *ast.AssignStmt, *ast.DeclStmt, *ast.IncDecStmt, *ast.ReturnStmt, *ast.SendStmt:
+		roots = []ast.Node{x}
+	case *ast.IfStmt:
+		if x.Init != nil {
+			roots = append(roots, x.Init)
+		}
+		roots = append(roots, x.Cond)
+	case *ast.ForStmt:
+		for _, n := range []ast.Node{x.Init, x.Cond, x.Post} {
+			if n != nil && !isNilNode(n) {
+				roots = append(roots, n)
+			}
+		}
+	case *ast.RangeStmt:
+		roots = []ast.Node{x.X}
+	case *ast.SwitchStmt:
+		if x.Init != nil {
+			roots = append(roots, x.Init)
+		}
+		if x.Tag != nil {
+			roots = append(roots, x.Tag)
+		}
+	default:
+		return nil
+	}
+	var out []ast.Stmt
+	seen := map[string]bool{}
+	for _, root := range roots {
+		ast.Inspect(root, func(n ast.Node) bool {
+			if _, isLit := n.(*ast.FuncLit); isLit {
+				return false
+			}
+			sel, ok := n.(*ast.SelectorExpr)
+			if !ok {
+				return true
+			}
+			for _, g := range r.guards {
+				if sel.Sel.Name != g.Field {
+					continue
+				}
+				// the receiver must be a struct (pointer) that also has the lock field
+				if !r.hasField(sel.X, g.Lock) {
+					continue
+				}
+				var buf bytes.Buffer
+				printer.Fprint(&buf, r.fset, sel.X)
+				key := buf.String() + "." + g.Lock
+				if seen[key] {
+					continue
+				}
+				seen[key] = true
+				r.stats["guard_asserts"]++
+				lock := &ast.UnaryExpr{Op: token.AND, X: &ast.SelectorExpr{X: sel.X, Sel: ast.NewIdent(g.Lock)}}
+				out = append(out, &ast.ExprStmt{X: r.call("AssertHeld", &ast.BasicLit{Kind: token.STRING, Value: strconv.Quote(g.Name)}, lock)})
+			}
+			return true
+		})
+	}
+	return out
+}
+
+func isNilNode(n ast.Node) bool {
+	switch x := n.(type) {
+	case ast.Stmt:
+		return x == nil
+	case ast.Expr:
+		return x == nil
+	}
+	return false
+}
+
+func (r *rewriter) hasField(e ast.Expr, name string) bool {
+	t := r.typeOf(e)
+	if t == nil {
+		return false
+	}
+	if p, ok := t.Underlying().(*types.Pointer); ok {
+		t = p.Elem()
+	}
+	st, ok := t.Underlying().(*types.Struct)
+	if !ok {
+		return false
+	}
+	for i := 0; i < st.NumFields(); i++ {
+		if st.Field(i).Name() == name {
+			return true
+		}
+	}
+	return false
 }
 
 func (r *rewriter) funcLits(n ast.Node) {
@@ -659,12 +808,22 @@ func (r *rewriter) stmt(s ast.Stmt) []ast.Stmt {
 	case *ast.GoStmt:
 		return r.goStmt(x)
 	case *ast.DeferStmt:
+		if ce := r.guardUnlock(x.Call); ce != nil {
+			x.Call = ce
+			return []ast.Stmt{x}
+		}
 		r.funcLits(x.Call)
 		return []ast.Stmt{x}
 	case *ast.ExprStmt:
 		if recv, try, ok := r.lockCall(x); ok {
 			r.stats["lock_rewrites"]++
+			if r.guardLock(recv) {
+				return []ast.Stmt{&ast.ExprStmt{X: r.call("LockG", r.site("lock"), &ast.SelectorExpr{X: recv, Sel: ast.NewIdent(try)}, &ast.UnaryExpr{Op: token.AND, X: recv})}}
+			}
 			return []ast.Stmt{&ast.ExprStmt{X: r.call("Lock", r.site("lock"), &ast.SelectorExpr{X: recv, Sel: ast.NewIdent(try)})}}
+		}
+		if ce := r.guardUnlock(x.X); ce != nil {
+			return []ast.Stmt{&ast.ExprStmt{X: ce}}
 		}
 		r.funcLits(x)
 		return r.wrapSync(x, x)
